@@ -230,7 +230,9 @@ pub fn gen_id(rng: &mut Rng, idx: usize) -> String {
     for _ in 0..n {
         s.push(*rng.pick(ID_CHARS) as char);
     }
-    format!("r{}{}{}", idx, if n > 0 { "_" } else { "" }, s)
+    // one id in ten ends like a read-pair / version marker (readers must hand the id over verbatim)
+    let tail = if rng.chance(1, 10) { *rng.pick(&["/1", "/2", ".1", ".2", ":1", "#0/1", "_1"]) } else { "" };
+    format!("r{}{}{}{}", idx, if n > 0 { "_" } else { "" }, s, tail)
 }
 
 pub fn gen_desc(rng: &mut Rng) -> Option<String> {
@@ -241,7 +243,9 @@ pub fn gen_desc(rng: &mut Rng) -> Option<String> {
     let mut parts = Vec::new();
     for _ in 0..words {
         let n = rng.usize(1, 8);
-        let w: String = (0..n).map(|_| *rng.pick(ID_CHARS) as char).collect();
+        // descriptions may also hold the characters that start records and separate fields elsewhere (a
+        // substitution "c.35G>A", an e-mail address, a '+') — they are only text here
+        let w: String = (0..n).map(|_| if rng.chance(1, 12) { *rng.pick(b">@+;,") as char } else { *rng.pick(ID_CHARS) as char }).collect();
         parts.push(w);
     }
     // inner separators may be space or tab
